@@ -747,24 +747,27 @@ func explain(v view, hit sut.Hit, ax *aux, twin *sut.Hit, ok func(view, string, 
 	default:
 		clCause = "non-canonical-content-length"
 	}
+	// clientCL returns base with the Content-Length header as the client sent it (alt: the same in canonical decimal)
+	clientCL := func(base view, alt bool) view {
+		t := base.clone()
+		switch {
+		case ax.clientCL == "":
+			delete(t.Header, "Content-Length")
+		case alt:
+			t.Header["Content-Length"] = []string{strconv.Itoa(len(ax.body))}
+		default:
+			t.Header["Content-Length"] = []string{ax.clientCL}
+		}
+		return t
+	}
 	withClientCL := func(base view) bool {
 		if clCause == "" {
 			return false
 		}
-		t := base.clone()
-		if ax.clientCL == "" {
-			delete(t.Header, "Content-Length")
-			return ok(t, ",", false)
-		}
-		t.Header["Content-Length"] = []string{ax.clientCL}
-		if ok(t, ",", false) {
-			return true
-		}
-		// the client's header in canonical decimal form
-		t.Header["Content-Length"] = []string{strconv.Itoa(len(ax.body))}
-		return ok(t, ",", false)
+		return ok(clientCL(base, false), ",", false) || (ax.clientCL != "" && ok(clientCL(base, true), ",", false))
 	}
 	// headers the client declared hop-by-hop, restored from the twin request
+	var restored *view
 	if twin != nil && len(ax.protTokens) > 0 {
 		t := v.clone()
 		for _, name := range ax.protTokens {
@@ -774,12 +777,16 @@ func explain(v view, hit sut.Hit, ax *aux, twin *sut.Hit, ok func(view, string, 
 				delete(t.Header, name)
 			}
 		}
-		if ok(t, ",", false) || withClientCL(t) {
+		restored = &t
+		if ok(t, ",", false) {
 			return "connection-token"
 		}
 	}
 	if withClientCL(v) {
 		return clCause
+	}
+	if restored != nil && withClientCL(*restored) {
+		return "connection-token"
 	}
 	// diagnosis only (names which part of the signed form differs from the received one)
 	type variant struct {
@@ -811,11 +818,20 @@ func explain(v view, hit sut.Hit, ax *aux, twin *sut.Hit, ok func(view, string, 
 			return ",", false
 		}},
 	}
+	bases := []view{v}
+	if clCause != "" {
+		bases = append(bases, clientCL(v, false))
+	}
+	if restored != nil {
+		bases = append(bases, *restored)
+	}
 	for _, vr := range vars {
-		t := v.clone()
-		sep, dq := vr.mk(&t)
-		if ok(t, sep, dq) {
-			return "unexplained signed-form=" + vr.name
+		for _, base := range bases {
+			t := base.clone()
+			sep, dq := vr.mk(&t)
+			if ok(t, sep, dq) {
+				return "unexplained signed-form=" + vr.name
+			}
 		}
 	}
 	return "unexplained"
